@@ -57,6 +57,9 @@ func (ex *Exec) paramTVs(fn *ssa.Function, args []Val) (map[string]TV, *CtxV) {
 }
 
 func (ex *Exec) envFor(fn *ssa.Function, params map[string]TV, ctx *CtxV, cur, old *State) *Env {
+	if old == nil {
+		old = cur // in a one-state context old(e) is e
+	}
 	e := &Env{ex: ex, cur: cur, old: old, vars: map[string]TV{}, ctx: ctx, imports: ex.importsFor(fn), pkg: fn.Pkg}
 	if fn.Pkg == nil && fn.Parent() != nil {
 		e.pkg = fn.Parent().Pkg
